@@ -41,7 +41,7 @@ PROBES = ["crash_halted", "crash_off", "crash_in_handler", "crash_pending_masked
 
 ALLOW = {"timers": True, "keys": True, "onk": True, "imr_writes": True, "isr_writes": True, "wait": True,
          "halt": True, "off": True, "ir": True, "calls": True, "far_calls": True, "nested": True,
-         "lcd": True, "kil_reads": True}
+         "lcd": True, "kil_reads": True, "rom_writes": True}
 
 FIELDS = [("PC", O_PC), ("BA", O_BA), ("I", O_I), ("X", O_X), ("Y", O_Y), ("U", O_U), ("S", O_S), ("F", O_F),
           ("power", O_PWR), ("IMR", O_IMR), ("ISR", O_ISR), ("cycles", O_CYC), ("instructions", O_INS),
@@ -80,6 +80,10 @@ def generate(batch: str, r: Rng, idx: int, tier: str) -> Dict[str, Any]:
     n = r.child("len").choice([30, 60, 120] if executor == "py-machine" else [30, 60, 120, 200])
     scn = machine.gen_machine_scenario(r, executor, feat, boundaries=n, faulty=True)
     scn["final_state"] = True
+    # the interrupt/reset vectors (last bytes of the ROM window) and a few ROM / unpopulated-window bytes are
+    # part of "memory": read through the bus at every boundary
+    scn["watch"] = scn["watch"] + [[0xFFFFA, 6], [0xC1000, 5], [0x01000, 4]]
+    scn["pce500_map"] = bool(r.child("map").chance(1, 2))    # Rust: documented read-only windows configured
     scn["crashes"] = None
     scn["crash_seed"] = r.child("crash").u64()
     scn["n_crashes"] = 2 if executor == "py-machine" else 3
